@@ -4,7 +4,9 @@ import json, glob, os, re
 V = os.path.dirname(os.path.dirname(os.path.abspath(__file__)))
 def key(p):
     i = os.path.basename(os.path.dirname(p))
-    return (0 if i.startswith('C') else 1, i)
+    import re as _re
+    m = _re.match(r'R(\d+)-(\d+)', i)
+    return (0, i, 0) if i.startswith('C') else (1, int(m.group(1)), int(m.group(2)))
 rows = []
 for p in sorted(glob.glob(V + '/seeded/*/meta.json'), key=key):
     m = json.load(open(p))
